@@ -27,6 +27,18 @@ SDL_UNORDERED = {'commands', 'declarations'}
 def canon(node, *, sdl: bool = False):
     if isinstance(node, qlast.Base):
         name = type(node).__name__
+        if name in ('CreateFunction', 'AlterFunction') and getattr(node, 'nativecode', None) is None:
+            # `USING EdgeQL $$ <text> $$` (legacy spelling) is `USING (<text>)`: the printer emits
+            # the second form, which the parser records as `nativecode`
+            code = getattr(node, 'code', None)
+            if isinstance(code, qlast.FunctionCode) and code.code is not None \
+                    and code.language is qlast.Language.EdgeQL and not code.from_function:
+                try:
+                    from edb.edgeql import parser as _qlparser
+                    expr = _qlparser.parse_fragment(code.code)
+                    node = node.replace(nativecode=expr, code=code.replace(code=None))
+                except Exception:
+                    pass
         if isinstance(node, qlast.Schema):
             # an SDL document embedded in a statement (START MIGRATION TO { ... }): declaration
             # order is not part of the program there either (the printer sorts SDL bodies)
